@@ -7,12 +7,13 @@ import json, os, shutil, subprocess, sys, time
 seed, i = sys.argv[1], sys.argv[2]
 pid = os.path.basename(seed.rstrip('/'))
 props = sys.argv[3:] or [pid]
-WT = '/tmp/sev/wt'
-TT = '/tmp/sev/target_plain'
+SEV = os.environ.get('SEV_DIR', '/tmp/sev')
+WT = SEV + '/wt'
+TT = SEV + '/target_plain'
 def sh(cmd, **kw):
     p = subprocess.run(cmd, shell=True, stdout=subprocess.PIPE, stderr=subprocess.STDOUT, **kw)
     return p.returncode, p.stdout.decode('utf-8', 'replace')
-os.makedirs('/tmp/sev', exist_ok=True)
+os.makedirs(SEV, exist_ok=True)
 if not os.path.isdir(WT):
     rc, out = sh('git -C /repo worktree add -f %s HEAD' % WT); assert rc == 0, out
 sh('git -C %s checkout -q --detach $(git -C /repo rev-parse HEAD) && git -C %s checkout -- . && git -C %s clean -fdq' % (WT, WT, WT))
@@ -23,8 +24,8 @@ notes = os.path.join(seed, 'out', 'notes%s.md' % i)
 env = 'CARGO_NET_OFFLINE=true CARGO_TARGET_DIR=%s' % TT
 # clean binary + demo on clean
 rc, out = sh('cd %s && %s cargo build --offline 2>&1 | tail -3' % (WT, env)); 
-shutil.copy(TT + '/debug/zinoma', '/tmp/sev/zinoma.clean')
-rc, out = sh('bash %s /tmp/sev/zinoma.clean' % demo, timeout=600)
+shutil.copy(TT + '/debug/zinoma', SEV + '/zinoma.clean')
+rc, out = sh('bash %s %s/zinoma.clean' % (demo, SEV), timeout=600)
 meta['demo_on_clean_rc'] = rc
 rc, out = sh('git -C %s apply %s' % (WT, patch))
 meta['applies'] = (rc == 0)
@@ -35,8 +36,8 @@ else:
     meta['tests_with_patch'] = out.strip().splitlines()
     meta['tests_pass'] = out.count('test result: ok') == 2 and 'FAILED' not in out
     rc, out = sh('cd %s && %s cargo build --offline 2>&1 | tail -3' % (WT, env))
-    shutil.copy(TT + '/debug/zinoma', '/tmp/sev/zinoma.patched')
-    rc, out = sh('bash %s /tmp/sev/zinoma.patched' % demo, timeout=600)
+    shutil.copy(TT + '/debug/zinoma', SEV + '/zinoma.patched')
+    rc, out = sh('bash %s %s/zinoma.patched' % (demo, SEV), timeout=600)
     meta['demo_on_patched_rc'] = rc
     meta['demo_on_patched_tail'] = out[-600:]
     meta['checks'] = {}
